@@ -13,6 +13,10 @@ FILES = ["errors.go", "types.go", "stack.go", "input.go", "lexer.go", "parser.go
 SPECS = {
     "valid": 'grammar calc;\nID = $ID;\nstart = ID "+" ID;\n',
     "validkw": 'grammar type;\nID = $ID;\nstart = ID "+" ID;\n',
+    # accepted specifications of unusual shape: no terminal at all; every operator and every kind of declaration
+    "validnoterm": 'grammar calc;\nstart = a;\na = b;\nb = ;\n',
+    "validfull": 'grammar calc;\n@left "*";\n@left "+";\nNUM = /[0-9]+/;\nID = $ID\nKW = "kw";\nstart = e;\n'
+                 'e = e "+" e | e "*" e | "(" e ")" | NUM | ID | KW | "[" [ "-" ] "x" { "," "x" } "]" | "<" {{ ";" }} ( "a" | "b" ) ">";\n',
     "lexical": 'grammar calc;\nID = $ID;\nstart = ID # ID;\n',
     "syntax": 'grammar calc;\nID = $ID\nstart = = ID;\n',
     "semantic": 'grammar calc;\nstart = UNDEF "+";\n',
@@ -109,7 +113,7 @@ def run_one(args):
     modified = sorted(k for k in pre if post.get(k) != pre[k])
     complete = False
     if rc == 0 and eff_outstate == "dir":
-        complete = all((os.path.join(os.path.relpath(pkg, root), f) in post and post[os.path.join(os.path.relpath(pkg, root), f)][1] == ref.get((name, f)))
+        complete = all((os.path.join(os.path.relpath(pkg, root), f) in post and post[os.path.join(os.path.relpath(pkg, root), f)][1] == ref.get((cfg["input"], name, f)))
                        for f in FILES)
     obs = {"id": "c%d" % i, "cfg": dict(cfg, outstate=eff_outstate), "argv": argv, "exit0": rc == 0, "rc": rc,
            "success": "Successful" in out or "Successful" in err, "created": created, "modified": modified,
@@ -122,15 +126,15 @@ def run_one(args):
 def reference_hashes(ck, binary):
     """the bytes of a complete package, from one clean run per package name"""
     ref = {}
-    for inp, name in (("valid", "calc"), ("valid", "pkgx"), ("validkw", "type"), ("valid", "_x1")):
-        d = os.path.join(ck.work, "cli", "ref-" + name)
+    for inp, name in [(i, n) for i in ("valid", "validnoterm", "validfull") for n in ("calc", "pkgx", "_x1")] + [("validkw", "type"), ("validkw", "pkgx"), ("validkw", "_x1")]:
+        d = os.path.join(ck.work, "cli", "ref-%s-%s" % (inp, name))
         os.makedirs(d)
         open(os.path.join(d, "g.ebnf"), "w").write(SPECS[inp])
         subprocess.run([binary, "-name", name, "g.ebnf"], cwd=d, stdout=subprocess.PIPE, stderr=subprocess.PIPE)
         for f in FILES:
             p = os.path.join(d, name, f)
             if os.path.exists(p):
-                ref[(name, f)] = hashlib.sha1(open(p, "rb").read()).hexdigest()
+                ref[(inp, name, f)] = hashlib.sha1(open(p, "rb").read()).hexdigest()
     return ref
 
 
